@@ -37,6 +37,8 @@ def line_alphabet(LIB):
             # comments that do not start in column one (for the loader a '#' starts a comment wherever it stands)
             b' # ' + LIB, b'\t# libsnoopy.so is switched off',
             # the own entry as a token that does not start in column one: indented, after / between other libraries, twice on one line
+            # another library's entry whose trailing comment mentions a libsnoopy.so / the own path (dead text for the loader)
+            b'/usr/lib/libfoo.so # libsnoopy.so used to be here', b'/usr/lib/libfoo.so # was ' + LIB,
             b' ' + LIB, b'\t' + LIB + b' # c', b'/usr/lib/libfoo.so ' + LIB + b' /usr/lib/libbar.so', b'/usr/lib/libfoo.so\t' + LIB + b' # c', LIB + b' ' + LIB]
 
 
@@ -103,7 +105,8 @@ def own_entry_line(line, LIB):
 
 
 def active_mentions(content):
-    return [l for l in lines_of(content) if not is_comment(l) and NAME in l]
+    """lines that mention a libsnoopy.so in their active part (in front of a '#'): a mention inside a trailing comment is as dead as one in a comment line"""
+    return [l for l in lines_of(content) if not is_comment(l) and NAME in l.split(b'#', 1)[0]]
 
 
 def huge_file_cases(ck, cli, LIB):
